@@ -16,10 +16,25 @@ class C07(Check):
             "schedule seed/policy, worker count, enumeration permutation and hash seed; non-trivial = first run changed a file; "
             "distinct = by experiment digest")
     assumptions = ["one re-run (the statement is about one)"]
-    budgets = {"quick": {"n": 70, "wall": 170}, "thorough": {"n": 1700, "wall": 1700}}
+    budgets = {"quick": {"n": 130, "wall": 170}, "thorough": {"n": 1700, "wall": 1700}}
 
     def gen(self, rng, i, tier):
-        exp = G.gen_general(rng, max_codemods=rng.choice([1, 1, 2, 3]))
+        # ONE codemod per experiment: the statement is about re-running "the same codemod"; a sequence K1;K2 is not
+        # claimed to be a fixed point (K1 may legitimately act on what K2 produced)
+        exp = G.gen_general(rng, max_codemods=1)
+        exp["include"] = exp["include"][:1]
+        if tier == "quick" and i < 101:
+            # walk the registry once: one trigger snippet of every codemod
+            cid = G.codemods()[i]["id"]
+            r = G.pick_snippet(rng, cid, plain=False)
+            if r is not None:
+                path = G.rand_path(rng, set()) if G.is_plain_snippet(r) else "proj/" + r["relpath"]
+                lay = G.rand_layout(rng, sast=bool(r.get("tool")))
+                lay.pop("bom", None)
+                lay.pop("wrap", None)
+                files = [{"path": path, "snippets": [r["idx"]], "layout": lay}] + G.gen_manifests(rng, k=rng.choice([0, 0, 1]))
+                exp = {"kind": "registry-walk", "world_spec": {"files": files}, "include": [cid], "plugins": False,
+                       "path_include": None, "extra_findings": {}}
         if tier == "thorough" and i < 1203:
             # walk the whole snippet corpus once
             r = W.snippets()[i]
@@ -77,7 +92,8 @@ class C07(Check):
             cids = sorted({c for c, _ in again}) or exp["include"]
             paths = sorted({p for _, ps in again for p in ps} | set(second["changed"]))
             manifest = any(p.split("/")[-1] in G.MANIFEST_FILES for p in paths)
-            v.append({"clause": "second-run-changes", "key": f"C07:not-a-fixed-point:{','.join(cids)}" + (":manifest" if manifest else ""),
+            bom = any((f.get("layout") or {}).get("bom") for f in exp["world_spec"]["files"] if f["path"] in paths)
+            v.append({"clause": "second-run-changes", "key": "C07:not-a-fixed-point:" + ("bom:" if bom else "") + ",".join(cids) + (":manifest" if manifest else ""),
                       "detail": {"codemods": cids, "paths": paths[:5], "changed_bytes": sorted(second["changed"])[:5],
                                  "mutating_events": muts[:3], "include": exp["include"]}})
         return v
